@@ -15,7 +15,7 @@ pub static DEF: PropDef = PropDef {
     id: "C10",
     level: "exploration",
     rule: "each case: a random conformant tree with known- and unknown-size masters interleaved (and random Full collapsing) is turned into a call history (with write_raw() calls of unknown ids inserted at random positions in a third of the cases), truncated at a random point (so masters may be left open) and optionally ended with flush(); the destination is a recording sink and is inspected after every call. The monitor keeps its own shadow stack of open masters from the call history. Checks: (1) at every element/Full/End call that returned Ok while the shadow stack holds no known-size master, the destination content must be walked completely and exactly by the reference header decoder guided by the partial tree of tags accepted so far (open unknown-size masters included); (2) while a known-size master is open the destination length does not change; (3) after flush()/into_inner() the destination decodes to the whole tree with every master closed and nothing left over; (4) destination content only ever grows. distinct = (tree fingerprint, sequence of shadow-stack shapes (K/U strings) at observation points) plus each shape sequence by itself; non-trivial iff some observation point had depth >= 2 or the history was cut with masters open.",
-    assumptions: &["the sink implements only io::Write, so bytes handed over cannot be retracted physically; the check is on completeness and timing", "unknown-size masters are never presented as Full (the writer ignores children there; outside C10's statement)"],
+    assumptions: &["a fifth of the ordinary histories additionally contain one or two calls that the writer rejects (generated as in C19); rejected calls are not part of the tags written so far; all observations continue after them and judge the destination against the accepted calls only", "every eighth case is an unclosable-master history: a known-size master is given size width 1 and a Void child of 127-199 marker bytes, the history is cut before its End; flush(), flush(), End, flush(), into_inner() follow: the destination stays append-only, a failing call delivers none of the marker bytes, and any flush()/into_inner() that reports Ok must leave a destination that decodes to everything accepted", "the sink implements only io::Write, so bytes handed over cannot be retracted physically; the check is on completeness and timing", "unknown-size masters are never presented as Full (the writer ignores children there; outside C10's statement)"],
     cases_quick: 200_000,
     cases_thorough: 2_000_000,
     floors: &[("complete_prefix_checks", 5000), ("held_back_checks", 3000), ("distinct_nontrivial", 200), ("final_decodes", 2000)],
@@ -82,7 +82,139 @@ fn explicit_width_open_at(calls: &[WCall], pos: usize) -> bool {
     stack.iter().any(|w| *w)
 }
 
+/// A master started with an explicit size width that its content outgrows can never be closed. flush() / into_inner()
+/// must then fail without delivering any of its content — every time, not only the first — and whatever flush()
+/// reports as delivered (Ok) must decode to the tags accepted so far.
+fn run_unclosable(c: &mut Case) {
+    let o = DocOpts { p_width: 0, p_unknown: 35, raw: false, shaping: false, full_specs: false };
+    let mut doc = gen_doc(&mut c.rng, c.tier, &o);
+    doc.spec.install();
+    if doc.spec.get(crate::spec::VOID_ID).is_none() {
+        return;
+    }
+    // pick a known-size master, give it width 1 and a Void child that alone exceeds 126 bytes
+    let mut masters: Vec<Vec<usize>> = Vec::new();
+    fn collect(ns: &[Node], cur: &mut Vec<usize>, out: &mut Vec<Vec<usize>>) {
+        for (i, n) in ns.iter().enumerate() {
+            if n.is_master() {
+                cur.push(i);
+                if n.opt == SizeOpt::Default {
+                    out.push(cur.clone());
+                }
+                collect(&n.children, cur, out);
+                cur.pop();
+            }
+        }
+    }
+    collect(&doc.tree, &mut Vec::new(), &mut masters);
+    if masters.is_empty() {
+        return;
+    }
+    let path = c.rng.pick(&masters).clone();
+    let marker: Vec<u8> = (0..c.rng.urange(127, 200)).map(|i| 0xA5u8 ^ (i as u8).wrapping_mul(37)).collect();
+    {
+        let mut n = &mut doc.tree[path[0]];
+        for i in &path[1..] {
+            n = &mut n.children[*i];
+        }
+        n.opt = SizeOpt::Width(1);
+        let at = c.rng.urange(0, n.children.len());
+        n.children.insert(at, Node::leaf(Item::B(crate::spec::VOID_ID, marker.clone())));
+    }
+    gen::fix_unknown(&doc.spec, &mut doc.tree);
+    let deprecated = c.rng.chance(1, 4);
+    let calls_all = calls_from_tree(&doc.tree, &mut |_| false, deprecated);
+    // cut right before the End of the master that holds the marker
+    let mut stack: Vec<usize> = Vec::new();
+    let mut target: Option<usize> = None;
+    let mut cut_at = None;
+    for (i, call) in calls_all.iter().enumerate() {
+        match call {
+            WCall::Write(Item::Start(_), _) | WCall::DeprecatedUnknown(_) => stack.push(i),
+            WCall::Write(Item::End(_), _) => {
+                if stack.pop() == target && target.is_some() {
+                    cut_at = Some(i);
+                    break;
+                }
+            }
+            WCall::Write(Item::B(id, d), _) if *id == crate::spec::VOID_ID && *d == marker => target = stack.last().copied(),
+            _ => {}
+        }
+    }
+    let (cut_at, target) = match (cut_at, target) {
+        (Some(a), Some(t)) => (a, t),
+        _ => return,
+    };
+    if !matches!(calls_all[target], WCall::Write(Item::Start(_), SizeOpt::Width(1))) {
+        return; // fix_unknown changed the picture
+    }
+    let calls: Vec<WCall> = calls_all[..cut_at].to_vec();
+    let mut w = TagWriter::new(ScriptedWrite::new());
+    let wit = |calls: &[WCall], dest: &[u8], msg: &str| doc_json(&doc).set("calls", calls_json(calls, 80)).set("then", J::s("flush(), flush(), [End of the unclosable master], flush(), into_inner()")).set("destination", J::s(hex_short(dest, 600))).set("problem", J::s(msg));
+    for (i, call) in calls.iter().enumerate() {
+        let r = do_call(&mut w, call);
+        c.eval();
+        if !r.is_ok() {
+            if let WRes::Caught(cg) = &r {
+                c.violation(format!("C10/unclosable/writer-{}", cg.sig()), format!("call {} {}", i, cg.text()), wit(&calls, &w.get_ref().data.clone(), "panic"));
+            }
+            c.count("vacuous_unclosable_prefix_rejected");
+            return;
+        }
+    }
+    c.count("unclosable_histories");
+    let before = w.get_ref().data.clone();
+    let contains_marker = |d: &[u8]| d.windows(32).any(|x| x == &marker[..32]);
+    if contains_marker(&before) {
+        c.violation("C10/unclosable/content-leaked-before-flush", "content of an open explicit-width master reached the destination", wit(&calls, &before, "marker bytes found in the destination"));
+        return;
+    }
+    let full = partial_tree(&calls);
+    let mut prev = before.clone();
+    let steps: [&str; 4] = ["flush#1", "flush#2", "end", "flush#3"];
+    for step in steps {
+        let r = if step == "end" { do_call(&mut w, &calls_all[cut_at]) } else { do_call(&mut w, &WCall::Flush) };
+        c.eval();
+        let dest = w.get_ref().data.clone();
+        if let WRes::Caught(cg) = &r {
+            c.violation(format!("C10/unclosable/{}-{}", step, cg.sig()), cg.text(), wit(&calls, &dest, "panic"));
+            return;
+        }
+        if dest.len() < prev.len() || dest[..prev.len()] != prev[..] {
+            c.violation(format!("C10/unclosable/retracted/{}", step), "destination content is not an extension of what it held before", wit(&calls, &dest, "retracted"));
+            return;
+        }
+        if r.is_ok() && step != "end" {
+            // delivered and complete: must decode to everything accepted
+            if let Err(e) = layout_guided(&dest, &full) {
+                c.violation(format!("C10/unclosable/{}-ok-but-incomplete", step), format!("{} returned Ok but the destination does not decode to the tags accepted so far: {}", step, e), wit(&calls, &dest, &e));
+                return;
+            }
+        }
+        if !r.is_ok() && contains_marker(&dest) {
+            c.violation(format!("C10/unclosable/content-leaked/{}", step), format!("{} failed ({}) yet content of the master that cannot be closed reached the destination", step, r.short()), wit(&calls, &dest, "marker bytes found in the destination"));
+            return;
+        }
+        c.count(&format!("unclosable_{}_{}", step.trim_end_matches(|ch: char| ch == '#' || ch.is_ascii_digit()), if r.is_ok() { "ok" } else { "err" }));
+        prev = dest;
+    }
+    match finish(w) {
+        Err(cg) => c.violation(format!("C10/unclosable/into_inner-{}", cg.sig()), cg.text(), J::Null),
+        Ok(Ok(sink)) => {
+            if let Err(e) = layout_guided(&sink.data, &full) {
+                c.violation("C10/unclosable/into_inner-ok-but-incomplete", format!("into_inner() returned Ok but the destination does not decode to the tags accepted so far: {}", e), wit(&calls, &sink.data, &e));
+            }
+        }
+        Ok(Err(_)) => c.count("unclosable_into_inner_err"),
+    }
+    c.nontrivial(mix(hash_str("unclosable"), (path.len() as u64) << 8 | (cut_at.min(200) as u64)));
+}
+
 fn run(c: &mut Case) {
+    if c.idx % 8 == 5 {
+        run_unclosable(c);
+        return;
+    }
     let o = DocOpts { p_width: 8, p_unknown: 35, raw: false, shaping: true, full_specs: false };
     let doc = gen_doc(&mut c.rng, c.tier, &o);
     doc.spec.install();
@@ -120,6 +252,28 @@ fn run(c: &mut Case) {
             c.count("write_raw_calls");
         }
     }
+    // a fifth of the histories contain one or two calls that the writer must reject (C19's generators): they are not
+    // part of "the tags written so far", and every streaming guarantee has to hold around and after them
+    let mut with_rejections = false;
+    if c.rng.chance(1, 5) {
+        for _ in 0..c.rng.urange(1, 2) {
+            let pos = c.rng.urange(0, calls.len());
+            let chain = super::c19::shadow_at(&calls, pos);
+            let kind = *c.rng.pick(&super::c19::KINDS);
+            if let Some((prefix, failing)) = super::c19::make_failing2(&mut c.rng, &doc.spec, kind, &chain) {
+                if prefix.is_empty() {
+                    for (k, f) in failing.into_iter().enumerate() {
+                        calls.insert(pos + k, f);
+                    }
+                    with_rejections = true;
+                }
+            }
+        }
+        if with_rejections {
+            c.count("histories_with_rejected_calls");
+        }
+    }
+    let mut accepted: Vec<WCall> = Vec::new();
     let explicit_flush = c.rng.chance(1, 2);
     let mut w = TagWriter::new(ScriptedWrite::new().with_limits(if c.rng.chance(1, 4) { vec![7, 1, 3] } else { vec![] }));
     // shadow stack: true = known-size
@@ -146,10 +300,23 @@ fn run(c: &mut Case) {
                 return;
             }
             WRes::Err(_) => {
-                c.count("vacuous_writer_rejected");
-                return;
+                if !with_rejections {
+                    c.count("vacuous_writer_rejected");
+                    return;
+                }
+                // a rejected call is not one of "the tags written so far". It may still hand over pending bytes of
+                // *accepted* tags (the header of an unknown-size Start), so growth alone proves nothing; what the
+                // destination holds is judged at the next observation point and at the end, against the accepted calls
+                c.count("rejected_calls_observed");
+                if dest.len() != prev_len {
+                    c.count("rejected_calls_during_which_the_destination_grew");
+                }
+                prev_len = dest.len();
+                prev_snapshot = dest;
+                continue;
             }
         }
+        accepted.push(call.clone());
         // update shadow
         let mut observation = false;
         match call {
@@ -179,7 +346,7 @@ fn run(c: &mut Case) {
         if observation && !known_open_after {
             // (1) everything accepted so far must be there, and nothing else
             c.count("complete_prefix_checks");
-            let pt = partial_tree(&calls[..=i]);
+            let pt = partial_tree(&accepted);
             if let Err(e) = layout_guided(&dest, &pt) {
                 let shape: String = shadow.iter().map(|k| if *k { 'K' } else { 'U' }).collect();
                 c.violation(
@@ -204,12 +371,17 @@ fn run(c: &mut Case) {
     if explicit_flush {
         let r = do_call(&mut w, &WCall::Flush);
         c.eval();
+        if !r.is_ok() && with_rejections {
+            // an accepted call next to a rejected one may have left a master that cannot be closed: nothing to decide
+            c.count("vacuous_flush_failed_after_rejections");
+            return;
+        }
         if !r.is_ok() {
             c.violation(format!("C10/flush-failed/{}", r.kind()), format!("flush() failed: {}", r.short()), wit(&calls, calls.len() - 1, &w.get_ref().data.clone(), "flush"));
             return;
         }
         let dest = w.get_ref().data.clone();
-        let full = partial_tree(&calls);
+        let full = partial_tree(&accepted);
         if let Err(e) = layout_guided(&dest, &full) {
             c.violation(format!("C10/flush-incomplete/open{}", open_at_end.min(4)), format!("after flush() the destination does not decode to the whole tree: {}", e), wit(&calls, calls.len() - 1, &dest, &e));
             return;
@@ -217,15 +389,16 @@ fn run(c: &mut Case) {
     }
     match finish(w) {
         Err(cg) => c.violation(format!("C10/into_inner-{}", cg.sig()), cg.text(), J::Null),
+        Ok(Err(_)) if with_rejections => c.count("vacuous_into_inner_failed_after_rejections"),
         Ok(Err(e)) => c.violation(format!("C10/into_inner-failed/{}", e.kind()), format!("into_inner failed: {:?}", e), doc_json(&doc).set("calls", calls_json(&calls, 80))),
         Ok(Ok(sink)) => {
             c.count("final_decodes");
-            let full = partial_tree(&calls);
+            let full = partial_tree(&accepted);
             match layout_guided(&sink.data, &full) {
                 Err(e) => c.violation(format!("C10/final-incomplete/open{}", open_at_end.min(4)), format!("after into_inner() the destination does not decode to the whole tree: {}", e), wit(&calls, calls.len() - 1, &sink.data, &e)),
                 Ok(lay) => {
                     c.add("elements_in_final_output", lay.len() as u64);
-                    if !cut && !calls.iter().any(|x| matches!(x, WCall::WriteRaw(..))) && flat(&full) != flat(&doc.tree) {
+                    if !cut && !with_rejections && !calls.iter().any(|x| matches!(x, WCall::WriteRaw(..))) && flat(&full) != flat(&doc.tree) {
                         // harness self-check: the partial-tree builder must reproduce the generated tree
                         panic!("partial_tree mismatch");
                     }
